@@ -89,6 +89,9 @@ def name_table(prog, rep):
     rep.ob("name-table", "literals compared", lits == set(NAMES), "the parser compares against %s; the registry names are %s" % (sorted(lits ^ set(NAMES)), sorted(NAMES)), b.where())
 
 
+LINE_TAG = ("line",)
+
+
 class WireWorld(OracleWorld):
     """Leaf parsers answer Ok(fresh atom)/Err(fresh error); strings are terms."""
 
@@ -145,6 +148,28 @@ class WireWorld(OracleWorld):
                     return ip.none()
                 m.store(st, ref.loc, Opq("splitn", base + (pos + 1,)))
                 return ip.some(Ref(("val", Str(("field", pos)))))
+        if p in ("core::str::<impl str>::split_once",) and len(args) == 2:
+            # the line cut at its first comma, and the rest cut at its first comma again: the same three fields
+            # splitn(3, ',') gives (the third keeps any further commas)
+            s = deref_all(m, st, args[0])
+            pat = args[1]
+            if isinstance(s, Str) and isinstance(pat, I) and (s.tag == LINE_TAG or (isinstance(s.tag, tuple) and s.tag and s.tag[0] == "rest")):
+                k = 0 if s.tag == LINE_TAG else s.tag[1]
+                if k >= 2:
+                    raise AnalysisError("the third field is split again: it may contain commas of its own")
+                n = st.choose(("nfields",), [1, 2, 3])
+                # (decided before anything is recorded: a fork re-executes this call)
+                if k == 0:
+                    st.emit(("splitn", s.tag, 3, pat.v))
+                if n < k + 2:
+                    return ip.none()
+                rest = Str(("field", 2)) if k == 1 else Str(("rest", k + 1))
+                return ip.some(ip.Tup((Ref(("val", Str(("field", k)))), Ref(("val", rest)))))
+        if p in ("<alloc::vec::Vec<T, A> as core::ops::index::Index<I>>::index", "<alloc::vec::Vec<T, A> as core::ops::deref::Deref>::deref", "alloc::vec::Vec::<T, A>::as_slice") and args:
+            v = deref_all(m, st, args[0])
+            r = deref_all(m, st, args[1]) if len(args) > 1 else None
+            if isinstance(v, Opq) and v.kind == "fields" and (r is None or (isinstance(r, Adt) and r.ty.endswith("RangeFull"))):
+                return Ref(("val", v))  # the whole vector as a slice (a slice pattern follows)
         if p == "alloc::vec::Vec::<T, A>::len":
             v = deref_all(m, st, args[0])
             if isinstance(v, Opq) and v.kind == "fields":
@@ -169,6 +194,22 @@ class WireWorld(OracleWorld):
 
     def opaque_const(self, st, c):
         return Opq("const", (c.get("ty"),))
+
+    # a slice pattern `let [a, b, c] = v[..]` reads the length and then the elements
+    def len_hook(self, st, a):
+        if isinstance(a, Ref) and a.loc[0] == "val":
+            a = a.loc[1]
+        if isinstance(a, Opq) and a.kind == "fields":
+            return I(st.choose(("nfields",), [1, 2, 3] if len(a.data) == 1 else [1, 2, 3, 4]), "usize")
+        return ip.Top("usize")
+
+    def index_hook(self, st, base, idx):
+        if isinstance(base, Opq) and base.kind == "fields" and isinstance(idx, I):
+            n = st.facts.get(("nfields",))
+            if n is None or idx.v >= n:
+                raise AnalysisError("element %d of the field vector (length %s)" % (idx.v, n))
+            return Ref(("val", Str(("field", idx.v))))
+        return None
 
     def enum_variants(self, ty):
         if ty.endswith("!opaque") or ty == "opaque!":
@@ -701,6 +742,12 @@ def panic_freedom(prog, rep):
             continue
 
         class W(tt.TotalWorld):
+            def len_hook(self, st, a):
+                x = a.loc[1] if isinstance(a, Ref) and a.loc[0] == "val" else a
+                if isinstance(x, Opq) and x.kind == "vec-slice":
+                    return Sym(("veclen", x.data[0]), "usize")
+                return tt.TotalWorld.len_hook(self, st, a)
+
             def call(self, m, st, callee, args, term):
                 p = callee["path"]
                 if p == "alloc::vec::Vec::<T, A>::len":
@@ -710,6 +757,10 @@ def panic_freedom(prog, rep):
                     self.visited_sites.add(self.site(st))
                     v = deref_all(m, st, args[0])
                     i = args[1]
+                    iv = deref_all(m, st, i)
+                    if isinstance(iv, Adt) and iv.ty.endswith("RangeFull"):
+                        # v[..]: the whole vector as a slice (cannot panic); its length is the vector's
+                        return Ref(("val", Opq("vec-slice", (repr(v)[:40],))))
                     lb = self.lower_bound(st, Sym(("veclen", repr(v)[:40]), "usize"))
                     if not (isinstance(i, I) and lb is not None and i.v < lb):
                         self.finding(st, "index", "Vec index %r is not below a proven lower bound of the length (%s)" % (i, lb), term)
